@@ -380,6 +380,24 @@ func c11TXT(s *kernel.Sim, w *world.World, up *c11Up, models map[filter.ID]listM
 	}
 
 	host := strings.Join(prefixes, ".") + suffix
+
+	// Names that merely contain the suffix, or end with something that looks
+	// like it, are ordinary names: they go upstream.
+	decoy := ""
+	if t.Chance(1, 6, "txt-decoy") {
+		switch t.Choose(4, "decoy-shape") {
+		case 0:
+			decoy = host + ".example.org"
+		case 1:
+			decoy = "www" + suffix + ".example.org"
+		case 2:
+			decoy = strings.Join(prefixes, ".") + ".x" + suffix[1:]
+		default:
+			decoy = strings.Join(prefixes, ".") + suffix + "x"
+		}
+		host = decoy
+	}
+
 	up.names = nil
 	req := (&dns.Msg{}).SetQuestion(dns.Fqdn(host), dns.TypeTXT)
 	out, serr := w.Serve(context.Background(), &world.Request{Remote: netip.MustParseAddrPort("203.0.113.9:5353"), Msg: req})
@@ -390,6 +408,16 @@ func c11TXT(s *kernel.Sim, w *world.World, up *c11Up, models map[filter.ID]listM
 	}
 	resp := out.Msgs[0]
 	s.Logf("round %d query %d: TXT %s -> rcode %d, %d answers, upstream %v", r, i, host, resp.Rcode, len(resp.Answer), up.names)
+
+	if decoy != "" {
+		s.Probe("txt-name-not-under-suffix")
+		if len(up.names) != 1 || resp.Rcode != dns.RcodeSuccess || len(resp.Answer) != 0 {
+			s.Failf("C11/ordinary-txt-intercepted", "TXT query for a name that is not under a safe-browsing suffix was not resolved upstream",
+				"%s: rcode %d, %d answers, upstream saw %v", host, resp.Rcode, len(resp.Answer), up.names)
+		}
+
+		return
+	}
 
 	if len(up.names) != 0 {
 		s.Failf("C11/txt-forwarded", "hash-prefix query under a safe-browsing suffix was forwarded upstream", "%s", host)
